@@ -11,9 +11,22 @@ def main():
     ap.add_argument("--jobs", type=int)
     ap.add_argument("--only")
     a = ap.parse_args()
-    seed = int(os.environ.get("VERIF_SEED", "0"))
+    raw = os.environ.get("VERIF_SEED", "0").strip() or "0"
+    try:
+        seed = int(raw)
+    except ValueError:
+        import zlib
+        seed = zlib.crc32(raw.encode())       # any string is a usable seed
     from .runner import run_check
-    sys.exit(run_check(a.prop.upper(), a.tier, seed, replay=a.replay, jobs=a.jobs, only=a.only))
+    try:
+        rc = run_check(a.prop.upper(), a.tier, seed, replay=a.replay, jobs=a.jobs, only=a.only)
+    except Exception:
+        # a failure of the machinery itself is never reported as a violation of the property
+        import traceback
+        traceback.print_exc()
+        print("INCONCLUSIVE property=%s harness error (see traceback above); no verdict" % a.prop.upper())
+        rc = 2
+    sys.exit(rc)
 
 
 if __name__ == "__main__":
